@@ -520,6 +520,9 @@ theorem k_arrayGetNextUnset_eq (a : WArr) (h32 : ∀ w ∈ a.words, w < W32) (fr
         rw [not32_natCast _ (h32 _ (List.getElem_mem hl))]
         rfl
 
+/-- non-vacuity of `k_arrayGetNextSet_eq`: fuel 3 for a two-word array -/
+example : ∃ (a : WArr) (fuel : Nat), a.words.length < fuel ∧ WArr.getNextSet a 3 = .ok 34 := ⟨⟨[5, 4], 40⟩, 3, by decide, by decide⟩
+
 /-- non-vacuity of `k_arrayGetNextUnset_eq` -/
 example : ∃ a : WArr, (∀ w ∈ a.words, w < W32) ∧ a.words.length < 3 := ⟨⟨[5, 4294967295], 40⟩, by decide, by decide⟩
 
